@@ -502,6 +502,69 @@ abbrev stepImpl := step false
 /-- What the property asks for (setter guarded). -/
 abbrev stepSpec := step true
 
+/-! ### Inherited list operations that the property does not list (`collections.UserList`)
+
+Modelled as they behave; `C11.xop_preserves` / `C11.xop_*_counterexample` say which keep the invariant. -/
+
+inductive XOp
+  | setItem (i : Int) (r : Recipe)   -- `mfd[i] = c`          (`self.data[i] = c`, no check)
+  | delItem (i : Int)                -- `del mfd[i]`
+  | iadd (rs : List Recipe)          -- `mfd += [c, …]`       (`self.data += …`, no check)
+  | add (rs : List Recipe)           -- `mfd + [c, …]`        (`self.__class__(self.data + …)`: through the constructor)
+  | mul (k : Int)                    -- `mfd * k`, `k * mfd`  (through the constructor)
+  | imul (k : Int)                   -- `mfd *= k`
+  | copy                             -- `mfd.copy()`
+  | sort                             -- `mfd.sort()`: components are not ordered (`TypeError` as soon as two are compared)
+  deriving DecidableEq, Repr
+
+def repeatList (cs : List Grid) (k : Int) : List Grid := (List.replicate k.toNat cs).flatten
+
+def stepX (cs : List Grid) : XOp → Except Err (List Grid)
+  | .setItem i r =>
+    match build r with
+    | .error e => .error e
+    | .ok c => match intPos cs.length i with
+      | some p => .ok (cs.set p c)
+      | none => .error .indexError
+  | .delItem i => match intPos cs.length i with
+    | some p => .ok (cs.eraseIdx p)
+    | none => .error .indexError
+  | .iadd rs => match buildAll rs with
+    | .error e => .error e
+    | .ok ds => .ok (cs ++ ds)
+  | .add rs => match buildAll rs with
+    | .error e => .error e
+    | .ok ds => mkMulti (cs ++ ds)
+  | .mul k => mkMulti (repeatList cs k)
+  | .imul k => .ok (repeatList cs k)
+  | .copy => .ok cs
+  | .sort => if cs.length ≤ 1 then .ok cs else .error .typeError
+
+/-! ### `BasisFunctionalData` as a container (outside the property's object kinds)
+
+`BasisFunctionalData.__init__` stores `basis` and `coefficients` as plain attributes: nothing relates the
+number of basis functions to the width of the coefficient matrix. -/
+
+structure BasisObj where
+  nFun : Nat            -- number of basis functions (`basis.n_obs`)
+  pts : Shape           -- sampling points of the basis
+  rows : List Nat       -- row tags of the coefficient matrix
+  width : Nat           -- number of columns of the coefficient matrix
+  deriving DecidableEq, Repr
+
+/-- `BasisFunctionalData(basis, coefficients)`: no check at all. -/
+def mkBasis (nFun : Nat) (pts : Shape) (rows : List Nat) (width : Nat) : BasisObj := ⟨nFun, pts, rows, width⟩
+
+/-- One coefficient per basis function (what `to_grid`'s `einsum` needs). -/
+def BasisObj.consistent (b : BasisObj) : Bool := b.width == b.nFun
+
+/-- `BasisFunctionalData.__getitem__`: NumPy indexing of the coefficient rows, the basis is shared. -/
+def BasisObj.getitem (b : BasisObj) (ix : Index) : Except Err BasisObj :=
+  (denseGet b.rows ix).map fun rows' => { b with rows := rows' }
+
+/-- `b.coefficients = …` (a plain attribute). -/
+def BasisObj.setCoef (b : BasisObj) (rows : List Nat) (width : Nat) : BasisObj := { b with rows := rows, width := width }
+
 /-! ### Observers of a state -/
 
 def State.nObs : State → Option Nat
